@@ -204,6 +204,37 @@ def sig_rule(ctx, rep, modules, rule='SIG'):
 ISSUE_SINKS = {'add_issue'}
 
 
+def _table_values(f, e):
+    """the tuple displays a table look-up can yield: TABLE[key], TABLE.get(key, DEFAULT), a module-level tuple"""
+    mod = f.mod
+
+    def global_value(name):
+        vals = [v for v in mod.globals.get(name, []) or [] if v is not None]
+        return vals[0] if len(vals) == 1 else None
+    out = []
+
+    def add(x):
+        if isinstance(x, ast.Name):
+            x = global_value(x.id)
+        if isinstance(x, ast.Tuple):
+            out.append(x)
+            return True
+        if isinstance(x, ast.Dict) and all(isinstance(v, ast.Tuple) for v in x.values):
+            out.extend(x.values)
+            return True
+        return False
+    if isinstance(e, ast.Subscript) and isinstance(e.value, ast.Name):
+        return out if add(e.value) else None
+    if isinstance(e, ast.Call) and isinstance(e.func, ast.Attribute) and e.func.attr == 'get' and isinstance(e.func.value, ast.Name):
+        ok = add(e.func.value)
+        for a in e.args[1:]:
+            ok = add(a) and ok
+        return out if ok else None
+    if isinstance(e, (ast.Name, ast.Tuple)):
+        return out if add(e) else None
+    return None
+
+
 def _int_kinded(f, e, depth=0):
     if isinstance(e, ast.Constant):
         return isinstance(e.value, int) and not isinstance(e.value, bool)
@@ -218,6 +249,17 @@ def _int_kinded(f, e, depth=0):
             for n in walk_own(g.node):
                 if isinstance(n, ast.Assign) and any(isinstance(t, ast.Name) and t.id == e.id for t in n.targets):
                     vals.append(n.value)
+                # code, message = TABLE[key] / TABLE.get(key, DEFAULT): the element of the pairs at that position
+                if isinstance(n, ast.Assign) and len(n.targets) == 1 and isinstance(n.targets[0], ast.Tuple):
+                    names = [t.id if isinstance(t, ast.Name) else None for t in n.targets[0].elts]
+                    if e.id in names:
+                        idx = names.index(e.id)
+                        pairs = _table_values(f, n.value)
+                        if pairs is None:
+                            vals.append(ast.Constant(value='?'))
+                        else:
+                            vals.extend(p_.elts[idx] if isinstance(p_, ast.Tuple) and idx < len(p_.elts) else ast.Constant(value='?')
+                                        for p_ in pairs)
             if e.id in [a.arg for a in g.node.args.args]:
                 return e.id in ('code',)       # forwarded parameter named code
             g = g.outer
